@@ -4,6 +4,7 @@ import Mrpro.Model.Fourier
 import Mrpro.Model.AlgebraExec
 import Mrpro.Model.CG
 import Mrpro.Model.Functional
+import Mrpro.Model.PowerIter
 open Lean M M.Proto
 
 def getTrajComp (j : Json) (k : String) : Except String TrajComp := do
@@ -95,6 +96,12 @@ def getRatTensor (j : Json) (k : String) : Except String (Tensor Rat) := do
   pure (Tensor.ofList shape d)
 def ratTensorJson (t : Tensor Rat) : Json :=
   Json.mkObj [("shape", natsJson t.shape), ("data", ratsJson t.toList)]
+
+def arrOpsF : VecOps Float (Array CFloat) where
+  add := fun u v => Array.zipWith (· + ·) u v
+  sub := fun u v => Array.zipWith (· - ·) u v
+  smul := fun c v => v.map (fun z => ⟨c * z.re, c * z.im⟩)
+  dot := fun u v => (Array.zipWith (fun a b => a.re * b.re + a.im * b.im) u v).foldl (· + ·) 0
 
 /-- one structural linear operator (forward or adjoint code path) on exact complex data -/
 def linop (j : Json) (x : Tensor CRat) : Except String (Except ErrKind (Tensor CRat)) := do
@@ -209,6 +216,21 @@ def handle (j : Json) : Except String Json := do
         | "conj" => do let σ ← getRatTensor j "sigma"; pure (funConj cfg nc (1/100000000) (1/1000000) x σ)
         | _ => throw "call"
       pure (match r with | .ok t => ratTensorJson t | .error e => errJson e)
+  | "power" =>
+      -- A is m×n (row-major, interleaved re/im doubles), v0 has n entries
+      let m ← getNat j "m"; let n ← getNat j "n"
+      let a := (← getCFloats j "A").toArray
+      let v0 := (← getCFloats j "v0").toArray
+      let maxIter ← getNat j "max_iter"
+      let atol := (← getFloats j "atol").headD 0.0
+      let rtol := (← getFloats j "rtol").headD 0.0
+      let shipped := (getBool j "shipped").toOption.getD false
+      let Af := fun (v : Array CFloat) => Array.ofFn (n := m) (fun i => matVec n (fun g => a.getD g 0) (fun t => v.getD t 0) i.val)
+      let AHf := fun (w : Array CFloat) => Array.ofFn (n := n) (fun i => matVecH m n (fun g => a.getD g 0) (fun t => w.getD t 0) i.val)
+      let G := fun v => AHf (Af v)
+      let stop := fun (est old : Float) => (atol > 0.0 || rtol > 0.0) && (Float.abs (est - old) ≤ atol + rtol * Float.abs old)
+      let r := if shipped then powerRunShipped arrOpsF Float.sqrt G stop v0 maxIter else powerRun arrOpsF Float.sqrt G stop v0 maxIter
+      pure (Json.mkObj [("norm", floatsJson [r.1]), ("callbacks", floatsJson r.2)])
   | "norm_dims" =>
       let ndim ← getNat j "ndim"; let dims ← getInts j "dims"
       pure (match dims.mapM (normIndex ndim) with
